@@ -85,10 +85,11 @@ type qgen struct {
 	path     string            // response path of the selection set being generated
 	force    string            // alias the next field must take (re-selection of an earlier field)
 	eff      map[string]interface{}
+	mergeFrag map[string]*FragDef // (type.field) -> fragment selecting that composite field, spread wherever the pattern recurs
 }
 
 func GenQuery(r *vh.Rng, spec *SchemaSpec, o QOpts) *Query {
-	g := &qgen{r: r, spec: spec, o: o, byType: map[string][]*FragDef{}, aliasSig: map[string]string{}}
+	g := &qgen{r: r, spec: spec, o: o, byType: map[string][]*FragDef{}, aliasSig: map[string]string{}, mergeFrag: map[string]*FragDef{}}
 	g.q = &Query{Vars: map[string]interface{}{}}
 	if r.Chance(50) {
 		g.q.Name = "Q" + fmt.Sprint(r.Intn(3))
@@ -224,6 +225,16 @@ func (g *qgen) set(typ string, depth int) []*Node {
 			leaves = append(leaves, f)
 		}
 	}
+	// once a type has the shared-merge pattern, later selection sets of that type mostly have it too
+	pm := 22
+	for k := range g.mergeFrag {
+		if strings.HasPrefix(k, typ+".") {
+			pm = 65
+		}
+	}
+	if depth > 0 && typ != "Query" && !g.inFrag && g.r.Chance(pm) {
+		out = append(out, g.sharedMerge(t, depth)...)
+	}
 	n := 1 + g.r.Intn(4)
 	if typ == "Query" {
 		n = 2 + g.r.Intn(3)
@@ -301,6 +312,92 @@ func (g *qgen) set(typ string, depth int) []*Node {
 		}
 	}
 	return out
+}
+
+// sharedMerge: a named fragment that selects a composite field with a few sub-selections, spread here,
+// followed by an inline fragment selecting the same field with other sub-selections.  Wherever the
+// pattern recurs for the same field the same fragment is spread, so the merged sub-selection starts,
+// in several places, from one shared selection set.
+func (g *qgen) sharedMerge(t *TypeSpec, depth int) []*Node {
+	var comps []*FieldSpec
+	for i := range t.Fields {
+		f := &t.Fields[i]
+		rt := f.Ret
+		for rt.K == "list" {
+			rt = *rt.Elem
+		}
+		if rt.K == "obj" {
+			comps = append(comps, f)
+		}
+	}
+	if len(comps) == 0 {
+		return nil
+	}
+	f := comps[g.r.Intn(len(comps))]
+	rt := f.Ret
+	for rt.K == "list" {
+		rt = *rt.Elem
+	}
+	key := t.Name + "." + f.Name
+	fd := g.mergeFrag[key]
+	if fd == nil {
+		if len(g.q.Frags) >= 7 {
+			return nil
+		}
+		tt := g.spec.Type(rt.Name)
+		var leaves []*FieldSpec
+		for i := range tt.Fields {
+			l := &tt.Fields[i]
+			lt := l.Ret
+			for lt.K == "list" {
+				lt = *lt.Elem
+			}
+			if lt.K != "obj" && lt.K != "union" {
+				leaves = append(leaves, l)
+			}
+		}
+		g.inFrag = true
+		oldp := g.path
+		node := &Node{Kind: "field", Name: f.Name, Alias: f.Name, HasSub: true, ID: g.id()}
+		if f.Arg {
+			a := int64(g.r.Intn(3))
+			node.Arg = &a
+			node.Alias = fmt.Sprintf("%s_%d", f.Name, a)
+		}
+		g.path = "frag/" + key
+		k := []int{3, 3, 3, 5, 6, 2, 7}[g.r.Intn(7)]
+		for i := 0; i < k; i++ {
+			if len(leaves) > 0 && g.r.Chance(85) {
+				node.Sub = append(node.Sub, g.field(tt, leaves[g.r.Intn(len(leaves))], 0))
+			} else {
+				node.Sub = append(node.Sub, &Node{Kind: "field", Name: "__typename", Alias: "__typename"})
+			}
+		}
+		g.path = oldp
+		g.inFrag = false
+		fd = &FragDef{Name: fmt.Sprintf("M%d", len(g.q.Frags)), On: t.Name, ID: g.id(), Body: []*Node{node}}
+		g.q.Frags = append(g.q.Frags, fd)
+		g.mergeFrag[key] = fd
+	}
+	first := fd.Body[0]
+	extra := &Node{Kind: "field", Name: first.Name, Alias: first.Alias, Arg: first.Arg, HasSub: true, ID: g.id()}
+	oldp := g.path
+	g.path = oldp + "/" + extra.Alias
+	extra.Sub = g.set(rt.Name, depth-1)
+	if g.r.Chance(60) {
+		// a single extra selection: fits the spare capacity of the fragment's selection list
+		for _, x := range extra.Sub {
+			if x.Kind == "field" {
+				extra.Sub = []*Node{x}
+				break
+			}
+		}
+	}
+	g.path = oldp
+	return []*Node{
+		{Kind: "spread", Frag: fd.Name, Dirs: g.dirs(), ID: g.id()},
+		{Kind: "inline", On: t.Name, Dirs: g.dirs(), ID: g.id(), Sub: []*Node{extra}},
+	}
 }
 
 // spread returns a spread of an existing fragment on typ (so that fragments are used several times
